@@ -113,6 +113,12 @@ class MapV:
         return SliceV(Opt(g("n0"), g("v0")), Opt(g("n1"), g("v1")), Opt(g("n2"), g("v2")))
 
     def set(self, k, val):
+        k = _i(k)
+        if "ite" in k.sexpr() or "If(" in str(k):
+            # keep `ite` out of array terms that end up in quantifier patterns
+            kk = CTX.fresh("key")
+            CTX.defs.append(kk == k, (kk,))
+            k = kk
         f = dict(self.f)
         if self.payload == "int":
             f["v"] = z3.Store(f["v"], k, as_int(val))
@@ -207,9 +213,22 @@ def as_int(x):
 # --------------------------------------------------------------------------
 # global context for definitional constraints (division witnesses etc.)
 # --------------------------------------------------------------------------
+class DefList(list):
+    """definitional constraints, each with an anchor term: a definition is only
+    relevant to an obligation that mentions its anchor."""
+
+    def __init__(self):
+        super().__init__()
+        self.anchors = []
+
+    def append(self, d, anchor=None):
+        super().append(d)
+        self.anchors.append(anchor)
+
+
 class Ctx:
     def __init__(self):
-        self.defs = []  # z3 Bool: definitional, always satisfiable
+        self.defs = DefList()  # z3 Bool: definitional, always satisfiable
         self.divcache = {}
         self.counter = itertools.count()
         self.hints = []
@@ -305,12 +324,27 @@ def divmod_(a, b):
     key = (a.get_id(), b.get_id())
     if key in CTX.divcache:
         return CTX.divcache[key]
-    q = CTX.fresh("q")
-    r = CTX.fresh("r")
-    CTX.defs.append(z3.Implies(b > 0, z3.And(a == q * b + r, 0 <= r, r < b)))
-    CTX.defs.append(z3.Implies(b < 0, z3.And(a == q * b + r, b < r, r <= 0)))
+    # uninterpreted quotient / remainder *functions* with a ground defining instance per
+    # occurrence: congruence then identifies the witnesses of equal operands for free.
+    q = f_pydiv(a, b)
+    r = f_pymod(a, b)
+    CTX.defs.append(z3.Implies(b > 0, z3.And(a == q * b + r, 0 <= r, r < b)), (q, r))
+    CTX.defs.append(z3.Implies(b < 0, z3.And(a == q * b + r, b < r, r <= 0)), (q, r))
     CTX.divcache[key] = (q, r)
     return q, r
+
+
+def mod_shift(y, m, st):
+    """pure lemma instance: (y + m*st) % st == y % st   (st != 0)."""
+    r1 = mod(y + m * st, st)
+    r2 = mod(y, st)
+    return Implies(st != 0, r1 == r2)
+
+
+def mod_small(y, st):
+    """pure lemma instance: for st > 0, y % st is y when 0 <= y < st and y + st when -st <= y < 0."""
+    r = mod(y, st)
+    return Implies(st > 0, And(Implies(And(0 <= y, y < st), r == y), Implies(And(-st <= y, y < 0), r == y + st)))
 
 
 def div(a, b):
@@ -452,13 +486,13 @@ def rlen(lo, hi, st):
     # characterisation by a fresh count (definitional: exists and is unique for st != 0);
     # far friendlier to the nonlinear solvers than a quotient witness
     c = CTX.fresh("cnt")
-    CTX.defs.append(c >= 0)
+    CTX.defs.append(c >= 0, (c,))
     CTX.defs.append(z3.Implies(st > 0, z3.And(
         z3.Implies(lo >= hi, c == 0),
-        z3.Implies(lo < hi, z3.And(c >= 1, lo + (c - 1) * st < hi, hi <= lo + c * st)))))
+        z3.Implies(lo < hi, z3.And(c >= 1, lo + (c - 1) * st < hi, hi <= lo + c * st)))), (c,))
     CTX.defs.append(z3.Implies(st < 0, z3.And(
         z3.Implies(lo <= hi, c == 0),
-        z3.Implies(lo > hi, z3.And(c >= 1, lo + (c - 1) * st > hi, hi >= lo + c * st)))))
+        z3.Implies(lo > hi, z3.And(c >= 1, lo + (c - 1) * st > hi, hi >= lo + c * st)))), (c,))
     CTX.divcache[key] = c
     return c
 
@@ -484,18 +518,20 @@ def step_ok(s):
 # integer sequences
 # --------------------------------------------------------------------------
 if z3 is not None:
+    f_pydiv = z3.Function("pydiv", z3.IntSort(), z3.IntSort(), z3.IntSort())
+    f_pymod = z3.Function("pymod", z3.IntSort(), z3.IntSort(), z3.IntSort())
     SeqSort = z3.DeclareSort("IntSeq")
-    f_len = z3.Function("len", SeqSort, z3.IntSort())
-    f_at = z3.Function("at", SeqSort, z3.IntSort(), z3.IntSort())
-    f_prefix = z3.Function("prefix", SeqSort, z3.IntSort(), z3.IntSort())
-    f_append = z3.Function("append", SeqSort, z3.IntSort(), SeqSort)
-    f_rev = z3.Function("rev", SeqSort, SeqSort)
-    f_cum = z3.Function("cumsum", SeqSort, SeqSort)
-    f_slice = z3.Function("subseq", SeqSort, z3.IntSort(), z3.IntSort(), SeqSort)
-    f_concat = z3.Function("concat", SeqSort, SeqSort, SeqSort)
-    f_update = z3.Function("update", SeqSort, z3.IntSort(), z3.IntSort(), SeqSort)
-    f_rep = z3.Function("rep", z3.IntSort(), z3.IntSort(), SeqSort)
-    c_empty = z3.Const("empty", SeqSort)
+    f_len = z3.Function("iseq_len", SeqSort, z3.IntSort())
+    f_at = z3.Function("iseq_at", SeqSort, z3.IntSort(), z3.IntSort())
+    f_prefix = z3.Function("iseq_prefix", SeqSort, z3.IntSort(), z3.IntSort())
+    f_append = z3.Function("iseq_append", SeqSort, z3.IntSort(), SeqSort)
+    f_rev = z3.Function("iseq_rev", SeqSort, SeqSort)
+    f_cum = z3.Function("iseq_cumsum", SeqSort, SeqSort)
+    f_slice = z3.Function("iseq_sub", SeqSort, z3.IntSort(), z3.IntSort(), SeqSort)
+    f_concat = z3.Function("iseq_concat", SeqSort, SeqSort, SeqSort)
+    f_update = z3.Function("iseq_update", SeqSort, z3.IntSort(), z3.IntSort(), SeqSort)
+    f_rep = z3.Function("iseq_rep", z3.IntSort(), z3.IntSort(), SeqSort)
+    c_empty = z3.Const("iseq_empty", SeqSort)
 
     def seq_axioms():
         s, u = z3.Consts("s u", SeqSort)
